@@ -312,6 +312,29 @@ func ClassifyRead(ci ssa.CallInstruction) ReadSite {
 			rs.Shape, rs.Detail = "single", "io.ReadAtLeast with min below the buffer length"
 		}
 		return rs
+	case c.Is("binary:Read"):
+		// encoding/binary.Read of a fixed-size value reads exactly its size with io.ReadFull
+		rs.Reader = Arg(ci, 0)
+		w := int64(-1)
+		d := stripValue(Arg(ci, 2))
+		if p, ok := d.Type().Underlying().(*types.Pointer); ok {
+			if b, ok := p.Elem().Underlying().(*types.Basic); ok {
+				switch b.Kind() {
+				case types.Uint8, types.Int8, types.Bool:
+					w = 1
+				case types.Uint16, types.Int16:
+					w = 2
+				case types.Uint32, types.Int32, types.Float32:
+					w = 4
+				case types.Uint64, types.Int64, types.Float64:
+					w = 8
+				}
+			}
+		}
+		if w > 0 {
+			rs.Shape, rs.Width, rs.Detail = "full", w, "encoding/binary.Read of a fixed-size value"
+		}
+		return rs
 	case isReadMethod(ci):
 		rs.Reader = Recv(ci)
 		buf := Arg(ci, 0)
